@@ -509,15 +509,15 @@ def tree_B(quick):
 def plan_A(quick):
     if quick:
         return [
-            ("MM1-222", "base", 1, ("adj",), False),
-            ("MV1-42", "base", 2, ("adj", "top"), False),
-            ("MM1-422", "base", 6, ("adj",), False),
-            ("MM1-222", "all-noskip", 9, ("adj",), False),
-            ("MM1-222", "main-noskip", 9, ("adj",), False),
-            ("MM1-222", "buf-noskip", 9, ("adj",), False),
-            ("MM1-222", "toll-vpa", 9, ("adj",), False),
-            ("MM1-222", "toll-actvpa", 13, ("adj",), False),
-            ("MM1-222", "toll-thr-leak", 13, ("adj",), False),
+            ("MM1-222", "base", 2, ("adj",), False),
+            ("MV1-42", "base", 3, ("adj", "top"), False),
+            ("MM1-422", "base", 12, ("adj",), False),
+            ("MM1-222", "all-noskip", 11, ("adj",), False),
+            ("MM1-222", "main-noskip", 13, ("adj",), False),
+            ("MM1-222", "buf-noskip", 12, ("adj",), False),
+            ("MM1-222", "toll-vpa", 14, ("adj",), False),
+            ("MM1-222", "toll-actvpa", 15, ("adj",), False),
+            ("MM1-222", "toll-thr-leak", 17, ("adj",), False),
         ]
     plan = [
         ("MM1-222", "base", 1, ("adj", "top"), True),
